@@ -49,7 +49,7 @@ theorem errorState_hf (D : Desc) (s : St) (i : SvcIn) : (errorState D s i).1.hol
 theorem processIdleState_hf (s : St) (i : SvcIn) : (processIdleState s i).1.holdFlag = s.holdFlag := by simp [processIdleState]; hf
 theorem parsePrefix_hf (D : Desc) (s : St) (i : SvcIn) : (parsePrefix D s i).1.holdFlag = s.holdFlag := by simp [parsePrefix, prepareParseCommand]; hf
 theorem parseCommand_hf (D : Desc) (s : St) (i : SvcIn) : (parseCommand D s i).1.holdFlag = s.holdFlag := by simp [parseCommand, prepareSearchCommand]; hf
-theorem updateCommand_hf (D : Desc) (s : St) : (updateCommand D s).1.holdFlag = s.holdFlag := by simp [updateCommand, prepareSearchCommand]; hf
+theorem updateCommand_hf (D : Desc) (s : St) : (updateCommand D s).1.holdFlag = s.holdFlag := by simp [updateCommand, updateAdvance, updateLane, prepareSearchCommand]; hf
 theorem waitReadAcknowledge_hf (s : St) (i : SvcIn) : (waitReadAcknowledge s i).1.holdFlag = s.holdFlag := by simp [waitReadAcknowledge, prepareSearchCommand]; hf
 theorem waitTestAcknowledge_hf (D : Desc) (s : St) (i : SvcIn) : (waitTestAcknowledge D s i).1.holdFlag = s.holdFlag := by simp [waitTestAcknowledge]; hf
 theorem searchCommand_hf (D : Desc) (s : St) : (searchCommand D s).1.holdFlag = s.holdFlag := by simp [searchCommand, notFoundOrError]; hf
